@@ -1,6 +1,7 @@
 import Ebu.Proofs.Shutdown
 import Ebu.Model.Inflight
 import Ebu.Generated.Consts
+import Ebu.Props.C03
 import Ebu.Spec.Conc
 import Ebu.Proofs.Conc
 /-!
@@ -46,6 +47,11 @@ theorem no_waiter_left_behind (ops : List Ebu.Inflight.Op) :
 theorem wait_returns_only_idle (s : Ebu.Inflight.St) (op : Ebu.Inflight.Op) (g : Nat)
     (hnew : g ∈ (Ebu.Inflight.step sourceWake s op).returned) (hold : g ∉ s.returned) : s.n = 0 :=
   Ebu.Inflight.returns_only_when_idle sourceWake s op g hnew hold
+
+/-- the in-flight counter is only touched under its mutex in the CURRENT source: `add` and `done` cannot lose an update
+(a lock-free `add` next to a locked `n--` would) -/
+theorem inflight_counter_locked : Ebu.Locks.Discipline Ebu.Generated.accessFacts = true :=
+  Ebu.Props.C03.facts_discipline
 
 /-- the obligation is not decoration: with `Signal` two waiters and one finishing handler leave a waiter parked -/
 theorem signal_would_lose_a_waiter :
